@@ -49,18 +49,18 @@ func mkVerdict(prop, rule, site, detail string, step int) Verdict {
 
 // Outcome is what execute returns for one scenario.
 type Outcome struct {
-	Index     int            `json:"index"`
-	Verdicts  []Verdict      `json:"verdicts,omitempty"` // violations of the scenario's own property
-	Foreign   []Verdict      `json:"foreign,omitempty"`  // violations of other properties seen on the way
-	LogSHA256 string         `json:"log"`
-	Stats     map[string]int `json:"stats,omitempty"`
-	Distinct  []string       `json:"distinct,omitempty"` // keys of distinct non-trivial cases
+	Index     int                 `json:"index"`
+	Verdicts  []Verdict           `json:"verdicts,omitempty"` // violations of the scenario's own property
+	Foreign   []Verdict           `json:"foreign,omitempty"`  // violations of other properties seen on the way
+	LogSHA256 string              `json:"log"`
+	Stats     map[string]int      `json:"stats,omitempty"`
+	Distinct  []string            `json:"distinct,omitempty"` // keys of distinct non-trivial cases
 	Measures  map[string][]string `json:"measures,omitempty"` // further distinct-count measures (hashes), by name
-	Sample    any            `json:"sample,omitempty"`
-	SimMillis int64          `json:"sim_ms,omitempty"`
-	Procs     int            `json:"procs,omitempty"`
-	Log       []string       `json:"-"`
-	Error     string         `json:"error,omitempty"` // harness trouble (never a violation)
+	Sample    any                 `json:"sample,omitempty"`
+	SimMillis int64               `json:"sim_ms,omitempty"`
+	Procs     int                 `json:"procs,omitempty"`
+	Log       []string            `json:"-"`
+	Error     string              `json:"error,omitempty"` // harness trouble (never a violation)
 }
 
 func (o *Outcome) stat(k string, n int) {
